@@ -12,7 +12,7 @@ use refmodel::notes::*;
 use serde_json::{json, Value};
 
 const ALIGNS: [usize; 8] = [1, 2, 4, 8, 16, 3, 5, 12];
-const TYPES1: [u32; 4] = [0, 1, 3, 7];
+const TYPES1: [u32; 7] = [0, 1, 2, 3, 4, 5, 7];
 
 fn name_bytes(family: u64, len: usize) -> Vec<u8> {
     let pat: &[u8] = match family {
@@ -216,7 +216,7 @@ impl Sequences {
 impl Space for Sequences {
     fn name(&self) -> String {
         format!(
-            "NoteIterator::new over sequences of {} notes: align in {{1,2,4,8,16,3,5,12}} x 4 encodings x note1 (namesz, descsz in 0..=min(2*align,{}), type in {{0,1,3,7}}, name family in {{GNU, XY, non-UTF-8}}) x note2 (namesz {{0,3,4,5}}, descsz {{0,1,16,align+1}}, type {{0,1,3}}){} x tail in {{none, 5 garbage bytes, every truncation 1..=12 of the end}}; on the untruncated variants also nth(0..2) / next-after-nth / last / count / skip from every cursor position; align 0",
+            "NoteIterator::new over sequences of {} notes: align in {{1,2,4,8,16,3,5,12}} x 4 encodings x note1 (namesz, descsz in 0..=min(2*align,{}), type in {{0,1,2,3,4,5,7}}, name family in {{GNU, XY, non-UTF-8}}) x note2 (namesz {{0,3,4,5}}, descsz {{0,1,16,align+1}}, type {{0,1,3}}){} x tail in {{none, 5 garbage bytes, 0xA5 in every padding byte, every truncation 1..=12 of the end}}; on the untruncated variants also nth(0..2) / next-after-nth / last / count / skip from every cursor position; align 0",
             if self.three { "2-3" } else { "1-2" },
             self.maxsz,
             if self.three { " x note3 (GNU build-id / ABI tag)" } else { "" }
@@ -266,6 +266,11 @@ impl Space for Sequences {
                     let mut g = body.clone();
                     g.extend_from_slice(&[0xff, 0x00, 0x01, 0xfe, 0x7f]);
                     variants.push(g);
+                    // padding is skipped, never interpreted: the same records with 0xA5 in every padding byte
+                    let padded = build_notes(enc.order, align, &notes, 0xA5);
+                    if padded != body {
+                        variants.push(padded);
+                    }
                     for cut in 1..=12usize {
                         if cut <= body.len() {
                             variants.push(body[..body.len() - cut].to_vec());
@@ -275,7 +280,7 @@ impl Space for Sequences {
                         let cap = data.len() + 2;
                         let got = subject(|| collect(NoteIterator::new(e, class, align, data), data, cap));
                         yielded += compare("NoteIterator", data, enc.order, align, got, out, &mut dig);
-                        if vi < 2 {
+                        if vi < 2 || (vi == 2 && data.len() == variants[0].len()) {
                             // nth / skip / last / count from every cursor position must walk the same records
                             let want = expect(data, enc.order, align);
                             match subject(|| adaptor_histories(&|| NoteIterator::new(e, class, align, data), data, want.len())) {
